@@ -38,7 +38,8 @@ def gen_case(rng):
     nc = rng.randint(1, 5)
     nr = rng.choice([1, 2, 4, 8])
     text_col = rng.choice([None, None, None] + list(range(1, nc))) if nc > 1 else None
-    s.curves = [("C%d" % j if j else "DEPT", "", "", "") for j in range(nc)]
+    ndecl = nc if rng.random() < 0.75 else rng.randint(0, nc - 1)       # surplus columns become unnamed curves: NULL applies to them too
+    s.curves = [("C%d" % j if j else "DEPT", "", "", "") for j in range(ndecl)]
     s.null = null
     s.well = [("STRT", "M", "1.0", "START"), ("STOP", "M", "2.0", "STOP"), ("STEP", "M", "0.5", "STEP")]
     rows = []
@@ -58,6 +59,9 @@ def gen_case(rng):
         rows.append(row)
     s.rows = rows
     s.wrap = "YES" if rng.random() < 0.25 else "NO"
+    if s.wrap == "YES":
+        # a wrapped file must declare all its curves (a depth step is "declared count" values)
+        s.curves = [("C%d" % j if j else "DEPT", "", "", "") for j in range(nc)]
     s._text_col = text_col
     return s
 
